@@ -250,6 +250,16 @@ class FnTranslator:
                     out.append(c if opn == 'In' else f'(!{c})')
                     prev, pt = r, rt
                     continue
+                if opn in ('Is', 'IsNot') and isinstance(rhs, ast.Constant) and rhs.value is None:
+                    # the declared type of the parameter says whether it is None
+                    if pt in (FILE, INT, LINT, MSG) or isinstance(pt, tuple):
+                        out.append('false' if opn == 'Is' else 'true')
+                    elif pt == NONE:
+                        out.append('true' if opn == 'Is' else 'false')
+                    else:
+                        raise Untranslatable('None test on ' + str(pt))
+                    prev, pt = '()', NONE
+                    continue
                 r, rt = self.expr(rhs)
                 if pt == INT and rt == OPT_INT and opn in ('Eq', 'NotEq'):
                     out.append(f'(some {prev} {"==" if opn == "Eq" else "!="} {r})')
@@ -378,6 +388,11 @@ class FnTranslator:
                 a, t = self.expr(e.args[1])
                 if t == INT:
                     return f'(← packU32 {a})', LINT
+            if f.attr == 'pack' and isinstance(f.value, ast.Name) and f.value.id == 'struct' and len(e.args) == 4 \
+                    and isinstance(e.args[0], ast.Constant) and e.args[0].value == '>hhh':
+                xs = [self.expr(a) for a in e.args[1:]]
+                if all(t == INT for _, t in xs):
+                    return '(← packI16x3 %s)' % ' '.join(x for x, _ in xs), LINT
             if f.attr == 'copy' and not e.args:
                 a, t = self.expr(f.value)
                 kws = {k.arg: k.value for k in e.keywords}
@@ -533,12 +548,24 @@ class FnTranslator:
             return out
         if isinstance(s, ast.If):
             c = self.cond(s.test)
+            if c == 'true':
+                return self.block(s.body, ind)          # the other branch cannot be reached with the declared types
+            if c == 'false':
+                return self.block(s.orelse, ind) if s.orelse else [f'{ind}pure ()']
             out.append(f'{ind}if {c} then')
             out.extend(self.block(s.body, ind + '  '))
             if s.orelse:
                 out.append(f'{ind}else')
                 out.extend(self.block(s.orelse, ind + '  '))
             return out
+        if isinstance(s, ast.With):
+            if len(s.items) == 1 and isinstance(s.items[0].context_expr, ast.Call) and \
+                    isinstance(s.items[0].context_expr.func, ast.Name) and s.items[0].context_expr.func.id == 'meta_charset' \
+                    and s.items[0].optional_vars is None:
+                # the process-wide charset during the block is the parameter `cs` of the message records' `bytes`
+                # (its scoping is the subject of C17's model); control flow is that of the body
+                return self.block(s.body, ind)
+            raise Untranslatable('with statement')
         if isinstance(s, ast.For):
             return self.for_stmt(s, ind)
         if isinstance(s, ast.While):
@@ -591,6 +618,22 @@ class FnTranslator:
             raise Untranslatable('sort form')
         if isinstance(e, ast.Call) and isinstance(e.func, ast.Attribute):
             f = e.func
+            # self.method(args) where `self` is a read-only record: a call of the translated method with the same record
+            if isinstance(f.value, ast.Name) and isinstance(self.env.get(f.value.id, (None, None))[1], Rec):
+                rec = self.env[f.value.id][1]
+                u = self.tr.unit_by_pyname(self.unit.file, f.attr, pycls=getattr(self.unit, 'pycls', None))
+                if u is None or not u.params or not isinstance(u.params[0][1], Rec) or list(u.params[0][1].fields) != list(rec.fields):
+                    raise Untranslatable('call of untranslated method ' + f.attr)
+                recargs = ' '.join(f'{f.value.id}_{k}' for k in rec.fields)
+                args = [self.expr(a) for a in e.args]
+                files = [(i, p) for i, (p, t) in enumerate(u.params[1:]) if t == FILE]
+                rest = ' '.join(a for a, _ in args)
+                if files and u.ret in (None, NONE):
+                    if len(files) != 1 or not isinstance(e.args[files[0][0]], ast.Name):
+                        raise Untranslatable('file argument form')
+                    fv = e.args[files[0][0]].id
+                    return [f'{ind}{fv} := (← {u.lean_name} {recargs} {rest}).2']
+                raise Untranslatable('method call form')
             # self.method(args)
             if isinstance(f.value, ast.Name) and self.env.get(f.value.id, (None, None))[1] == 'Self':
                 u = self.tr.unit_by_pyname(self.unit.file, f.attr, cls=self.unit.cls)
@@ -905,9 +948,14 @@ class Translator:
             self.failures.append(f'dispatch tables: {type(e).__name__}: {e}')
         return '\n\n'.join(out)
 
-    def unit_by_pyname(self, file, name, cls=None):
+    def unit_by_pyname(self, file, name, cls=None, pycls=None):
+        if pycls is not None:
+            for u in self.units:
+                if u.name == name and getattr(u, 'pycls', None) == pycls and u.file == file:
+                    return u
+            return None
         for u in self.units:
-            if u.name == name and u.cls == cls and u.file == file:
+            if u.name == name and u.cls == cls and u.file == file and not getattr(u, 'pycls', None):
                 return u
         # imported from another translated module
         if cls is None:
@@ -947,7 +995,8 @@ class Translator:
                     fn = ast.parse(ast.unparse(fn)).body[0]
                     if not fn.args.args or fn.args.args[0].arg != 'self':
                         raise Untranslatable('method without self')
-                    fn.args.args = fn.args.args[1:]
+                    if not getattr(u, 'keep_self', False):
+                        fn.args.args = fn.args.args[1:]
                 defs.append(FnTranslator(self, u, fn).translate())
             except Untranslatable as e:
                 self.failures.append(f'{u.file}:{(getattr(u, "pycls", None) or u.cls or "")}.{u.name}: {e}')
@@ -1006,6 +1055,14 @@ def units():
     U.append(Unit(MF, 'write_chunk', [('outfile', FILE), ('name', LINT), ('data', LINT)], NONE))
     U.append(Unit(MF, 'write_track', [('outfile', FILE), ('track', LIST(MSG))], NONE))
     U[-1].local_types = {'running_status_byte': OPT_INT}
+
+    mfrec = lambda: Rec({'type': INT, 'tracks': LIST(LIST(MSG)), 'ticks_per_beat': INT})   # noqa: E731
+    u = Unit(MF, '_save', [('self', mfrec()), ('outfile', FILE)], NONE, lean_name='MidiFile._save')
+    u.pycls, u.keep_self = 'MidiFile', True
+    U.append(u)
+    u = Unit(MF, 'save', [('self', mfrec()), ('file', FILE)], NONE, lean_name='MidiFile.save')
+    u.pycls, u.keep_self = 'MidiFile', True
+    U.append(u)
 
     def meta(cls, attrs, dec_extra=None, checks=True):
         rec_in = Rec({a: INT for a in attrs})
